@@ -2,7 +2,8 @@ import ZChain.Drv.Util
 import ZChain.Model.LockSet
 import ZChain.Generated.C44
 /-! Line driver for the lockset model (C44) over the GENERATED table of the current source.
-`init` | `pair <location> <fnA> <fnB>` → `racy` | `sync` | `none` (the verdict `LockSet.verdictOn` on the effective
+`init` | `pair <location> <fnA> <fnB>` → `racy` | `sync` | `none` | `slots <site>` → `disjoint` | `shared` | `none`
+(ownership by index, `IndexOwn.siteVerdict`) (the verdict `LockSet.verdictOn` on the effective
 accesses of the table's contexts; unordered in the two functions). -/
 namespace ZChain.Drv.C44
 open ZChain.LockSet
@@ -29,6 +30,7 @@ def step (es : St) (ws : List String) : St × String :=
     -- the table is a constant: its effective accesses are computed once per process
     ((if es.isEmpty then effs ZChain.Generated.C44.table ZChain.Generated.C44.contexts else es), "ok")
   | ["pair", loc, f, g] => (es, showV (both es (encodeName loc) (encodeName f) (encodeName g)))
+  | ["slots", site] => (es, ZChain.IndexOwn.siteVerdict ZChain.Generated.C44.stridedSites (encodeName site))
   | _ => (es, "bad-op")
 
 def run : IO Unit := ZChain.Drv.runLoop step []
